@@ -366,5 +366,43 @@ pub fn run(mut run: Run) -> i32 {
     }
     let nc = colls.len();
     run.stage("collections", nc, |idx, acc| check(acc, idx, &colls[idx], "collection"));
+    // long rings and long line strings (tens to thousands of coordinates): shapes whose centroid is known exactly however finely their sides are subdivided -
+    // a w x h rectangle (optionally with a centred rectangular hole), an L-shape, an open zigzag; as Polygon, MultiPolygon member and collection member
+    {
+        let ks: Vec<usize> = if quick { vec![1, 7, 15, 16, 17, 31, 32, 33, 100, 1000] } else { vec![1, 2, 3, 7, 15, 16, 17, 31, 32, 33, 63, 64, 65, 100, 127, 128, 129, 255, 256, 257, 1000, 4097, 20000] };
+        run.stage("long-rings", ks.len() * 4, |idx, acc| {
+            let (k, shape) = (ks[idx / 4], idx % 4);
+            // subdivide every side of a polyline into k equal parts (exact for power-of-two k; otherwise within rounding)
+            let densify = |corners: &[(f64, f64)]| -> Vec<Coord<f64>> {
+                let mut out = vec![];
+                for w in corners.windows(2) {
+                    for i in 0..k {
+                        let t = i as f64 / k as f64;
+                        out.push(Coord { x: w[0].0 + (w[1].0 - w[0].0) * t, y: w[0].1 + (w[1].1 - w[0].1) * t });
+                    }
+                }
+                let l = corners[corners.len() - 1];
+                out.push(Coord { x: l.0, y: l.1 });
+                out
+            };
+            let rect = [(0.0, 0.0), (40.0, 0.0), (40.0, 10.0), (0.0, 10.0), (0.0, 0.0)];
+            let hole = [(15.0, 3.0), (15.0, 7.0), (25.0, 7.0), (25.0, 3.0), (15.0, 3.0)];
+            let ell = [(0.0, 0.0), (6.0, 0.0), (6.0, 2.0), (2.0, 2.0), (2.0, 6.0), (0.0, 6.0), (0.0, 0.0)];
+            let (name, g, want): (&str, Geometry<f64>, (f64, f64)) = match shape {
+                0 => ("rectangle", Geometry::Polygon(Polygon::new(LineString::new(densify(&rect)), vec![])), (20.0, 5.0)),
+                1 => ("rectangle with a centred hole", Geometry::Polygon(Polygon::new(LineString::new(densify(&rect)), vec![LineString::new(densify(&hole))])), (20.0, 5.0)),
+                // L-shape: 6x2 bar (centroid (3,1), area 12) + 2x4 bar (centroid (1,4), area 8): (44/20, 44/20)
+                2 => ("L-shape", Geometry::MultiPolygon(MultiPolygon(vec![Polygon::new(LineString::new(densify(&ell)), vec![])])), (2.2, 2.2)),
+                // open path: (0,0)-(10,0)-(10,10): two equal sides with midpoints (5,0) and (10,5)
+                _ => ("open path", Geometry::GeometryCollection(GeometryCollection(vec![Geometry::LineString(LineString::new(densify(&[(0.0, 0.0), (10.0, 0.0), (10.0, 10.0)])))])), (7.5, 2.5)),
+            };
+            acc.evals += 1;
+            acc.class(format!("long ring {} ", name));
+            match guard(|| g.centroid()) {
+                Ok(Some(c)) if (c.x() - want.0).abs() <= 1e-9 && (c.y() - want.1).abs() <= 1e-9 => {}
+                other => acc.viol(format!("centroid of a finely subdivided {} is not its known centre of mass", name), idx, || json!({"pieces_per_side": k, "expected": [want.0, want.1], "got": format!("{:?}", other)})),
+            }
+        });
+    }
     run.finish()
 }
